@@ -70,6 +70,38 @@ type Step struct {
 	Bucket int    `json:"bucket,omitempty"`
 	Rules  []Rule `json:"rules,omitempty"`
 	Req    *Req   `json:"req,omitempty"`
+	// During (server mode, put / del / recreate): this request is served while the storage write of the step
+	// is in flight (the harness runs it when the write reaches the storage below the server's CORS cache);
+	// the same request is sent again right after the step and judged against the new configuration.
+	During *Req `json:"during,omitempty"`
+}
+
+// inflight wraps the storage below the server: a hook runs when a CORS-relevant write arrives, before it is applied.
+type inflight struct {
+	storage.Storage
+	hook func()
+}
+
+func (s *inflight) fire() {
+	if h := s.hook; h != nil {
+		s.hook = nil
+		h()
+	}
+}
+
+func (s *inflight) PutBucketCORSConfiguration(ctx context.Context, b storage.BucketName, c *storage.BucketCORSConfiguration) error {
+	s.fire()
+	return s.Storage.PutBucketCORSConfiguration(ctx, b, c)
+}
+
+func (s *inflight) DeleteBucketCORSConfiguration(ctx context.Context, b storage.BucketName) error {
+	s.fire()
+	return s.Storage.DeleteBucketCORSConfiguration(ctx, b)
+}
+
+func (s *inflight) DeleteBucket(ctx context.Context, b storage.BucketName) error {
+	s.fire()
+	return s.Storage.DeleteBucket(ctx, b)
 }
 
 type Case struct {
@@ -262,6 +294,7 @@ type world struct {
 	// stale[b]: the configuration bucket b had when the bucket itself was deleted,
 	// until the next PUT/DELETE ?cors on it (mechanism of KF-C34-2).
 	stale [3][]Rule
+	inflight *inflight
 }
 
 type nextRecord struct {
@@ -321,7 +354,8 @@ func openWorld(env *ev.Env, mode string) (*world, error) {
 			return nil, err
 		}
 	}
-	w.h = server.SetupServer(nil, "eu-central-1", "localhost", "s3-website.localhost", allowAll{}, inst.Storage)
+	w.inflight = &inflight{Storage: inst.Storage}
+	w.h = server.SetupServer(nil, "eu-central-1", "localhost", "s3-website.localhost", allowAll{}, w.inflight)
 	return w, nil
 }
 
@@ -421,7 +455,33 @@ func run(env *ev.Env, c Case) (o ev.Outcome) {
 		}
 	}
 
-	for si, st := range c.Steps {
+	steps := append([]Step(nil), c.Steps...)
+	for si := 0; si < len(steps); si++ {
+		st := steps[si]
+		if w.inflight != nil {
+			w.inflight.hook = nil // a write that never reached the storage (rejected configuration) leaves nothing armed
+		}
+		if st.During != nil && c.Mode == "server" && (st.Kind == "put" || st.Kind == "del" || st.Kind == "recreate") {
+			dr := *st.During
+			w.inflight.hook = func() {
+				host, path := target(&dr)
+				hdr := http.Header{}
+				if dr.Origin != nil {
+					hdr["Origin"] = dr.Origin
+				}
+				if dr.ACRM != nil {
+					hdr["Access-Control-Request-Method"] = dr.ACRM
+				}
+				if dr.ACRH != nil {
+					hdr["Access-Control-Request-Headers"] = dr.ACRH
+				}
+				w.do(dr.Method, host, path, hdr, nil)
+				o.Class("request-served-while-a-cors-write-was-in-flight")
+			}
+			// the same request again, right after the write, judged against the new configuration
+			rest := append([]Step{{Kind: "req", Req: &dr}}, steps[si+1:]...)
+			steps = append(steps[:si+1:si+1], rest...)
+		}
 		switch st.Kind {
 		case "put":
 			b := st.Bucket
@@ -870,23 +930,50 @@ func genCase(t *rapid.T, env *ev.Env) Case {
 				b = rapid.SampledFrom([]int{0, 1}).Draw(t, "pb")
 			}
 			rules := rapid.SliceOfN(rapid.Custom(genRule), 1, 3).Draw(t, "rules")
+			during := genDuring(t, &cur, c.Mode, b, i)
 			cur[b] = rules
-			c.Steps = append(c.Steps, Step{Kind: "put", Bucket: b, Rules: rules})
+			c.Steps = append(c.Steps, Step{Kind: "put", Bucket: b, Rules: rules, During: during})
 		case k == 17 && i > 1 && c.Mode == "server":
+			during := genDuring(t, &cur, c.Mode, 1, i)
 			cur[1] = nil
-			c.Steps = append(c.Steps, Step{Kind: "recreate", Bucket: 1})
+			c.Steps = append(c.Steps, Step{Kind: "recreate", Bucket: 1, During: during})
 		case k == 11 && i > 1:
 			b := 0
 			if c.Mode == "server" {
 				b = rapid.SampledFrom([]int{0, 1}).Draw(t, "db")
 			}
+			during := genDuring(t, &cur, c.Mode, b, i)
 			cur[b] = nil
-			c.Steps = append(c.Steps, Step{Kind: "del", Bucket: b})
+			c.Steps = append(c.Steps, Step{Kind: "del", Bucket: b, During: during})
 		default:
 			c.Steps = append(c.Steps, Step{Kind: "req", Req: genReq(t, &cur, c.Mode)})
 		}
 	}
 	return c
+}
+
+// genDuring: for half of the configuration writes that replace an existing configuration (server mode), a
+// CORS request on that bucket drawn against the configuration that is about to be replaced.
+func genDuring(t *rapid.T, cur *[3][]Rule, mode string, b, i int) *Req {
+	if mode != "server" || i == 0 || cur[b] == nil || !rapid.Bool().Draw(t, "during") {
+		return nil
+	}
+	var r *Req
+	for try := 0; try < 4; try++ {
+		r = genReq(t, cur, mode)
+		if r.Bucket == b && r.Origin != nil {
+			break
+		}
+	}
+	r.Bucket = b
+	if r.Origin == nil {
+		r.Origin = []string{"http://example.com"}
+	}
+	if r.Method != "OPTIONS" && r.Method != "GET" && r.Method != "HEAD" {
+		r.Method = "GET" // the in-flight request itself must not change state
+		r.Key = "key"
+	}
+	return r
 }
 
 func directed(env *ev.Env) []Case {
